@@ -244,8 +244,11 @@ pub fn run(args: &Args) -> i32 {
                         if !(st.abs() < WEEK && et.abs() < WEEK) {
                             defects.push("InvalidDstStartEndTime");
                         }
-                        let got = guard(|| AlternateTime::new(mk(std, false), mk(dst, true), rule_day(sd), st as i32, rule_day(ed), et as i32));
-                        let case = json!({"kind":"cons","start":sd.text(),"end":ed.text(),"st":st,"et":et,"std":std,"dst":dst});
+                        // the DST flags of the two types rotate through the four combinations (the error kind names the argument
+                        // position, not the flag)
+                        let (fs, fd) = [(false, true), (true, false), (true, true), (false, false)][(wn % 4) as usize];
+                        let got = guard(|| AlternateTime::new(mk(std, fs), mk(dst, fd), rule_day(sd), st as i32, rule_day(ed), et as i32));
+                        let case = json!({"kind":"cons","start":sd.text(),"end":ed.text(),"st":st,"et":et,"std":std,"dst":dst,"std_is_dst":fs,"dst_is_dst":fd});
                         match got {
                             Err(m) => rec.violation("window", case, json!("no panic"), json!(m)),
                             Ok(Ok(_)) => {
